@@ -348,7 +348,21 @@ def rule_entry(ctx, rep, rid):
             raise Broken(name + " vanished")
         r = g.rets()[0]
         e = ir.expr(g, r.args[0], 4)
-        okr = e[0] == "load" and e[1].startswith("local:") and e[1].endswith("cds_lfht_iter.node")
+        is_found = lambda x: x[0] == "load" and x[1].startswith("local:") and x[1].endswith("cds_lfht_iter.node")
+        if e[0] == "phi":
+            # `return node` on the path where the search came back with the caller's own node is the same value
+            okr = True
+            for v_, blk in g.insts[e[1]].d["inc"]:
+                x = ir.expr(g, v_, 4)
+                if is_found(x):
+                    continue
+                gd = list(pat.dom_leaf_atoms(g, g.blocks[blk].insts[0]))
+                if len(g.blocks[blk].succ) >= 2:
+                    gd += list(ir.edge_atoms(g, blk, g.insts[e[1]].blk.id))
+                same = any(a[0] == "eq" and ((is_found(a[1]) and a[2] == x) or (is_found(a[2]) and a[1] == x)) for a in gd)
+                okr = okr and x[0] == "arg" and same
+        else:
+            okr = is_found(e)
         rep.check(okr, rid, "entry.%s.returns-found" % name, "returns the node reported through unique_ret (the existing duplicate, or its own node)", "returns %s instead of the node the search reported" % ir.expr_str(e), [r.where()])
 
 
